@@ -115,6 +115,28 @@ impl<'tcx> Cx<'tcx> {
         s
     }
 
+    fn ref_scalar(&self, c: &ConstOperand<'tcx>, env: TypingEnv<'tcx>, inner: Ty<'tcx>) -> Option<u128> {
+        let tcx = self.tcx;
+        let val = c.const_.eval(tcx, env, c.span).ok()?;
+        let ConstValue::Scalar(rustc_middle::mir::interpret::Scalar::Ptr(ptr, _)) = val else { return None };
+        let (prov, offset) = ptr.into_raw_parts();
+        let alloc = match tcx.global_alloc(prov.alloc_id()) {
+            rustc_middle::mir::interpret::GlobalAlloc::Memory(a) => a,
+            _ => return None,
+        };
+        let size = tcx.layout_of(env.as_query_input(inner)).ok()?.size.bytes_usize();
+        if size == 0 || size > 16 {
+            return None;
+        }
+        let start = offset.bytes_usize();
+        let bytes = alloc.inner().inspect_with_uninit_and_ptr_outside_interpreter(start..start + size);
+        let mut v: u128 = 0;
+        for (i, b) in bytes.iter().enumerate() {
+            v |= (*b as u128) << (8 * i);
+        }
+        Some(v)
+    }
+
     fn operand(&self, body: &Body<'tcx>, did: DefId, o: &Operand<'tcx>) -> String {
         match o {
             Operand::Copy(p) => format!("{{\"copy\":{}}}", self.place(body, *p)),
@@ -123,6 +145,7 @@ impl<'tcx> Cx<'tcx> {
                 let tcx = self.tcx;
                 let ty = c.const_.ty();
                 let mut int = String::from("null");
+                let mut ref_int = String::from("null");
                 let mut path = String::from("null");
                 let mut fnp = String::from("null");
                 if let ty::FnDef(fd, args) = ty.kind() {
@@ -145,11 +168,18 @@ impl<'tcx> Cx<'tcx> {
                     if let Const::Unevaluated(uv, _) = c.const_ {
                         path = esc(&tcx.def_path_str(uv.def));
                     }
+                    // a promoted reference to a scalar (`x.cmp(&0)`): the value behind it
+                    if let ty::Ref(_, inner, _) = ty.kind() {
+                        if inner.is_integral() || inner.is_bool() {
+                            ref_int = self.ref_scalar(c, env, *inner).map(|v| format!("\"{}\"", v)).unwrap_or_else(|| String::from("null"));
+                        }
+                    }
                 }
                 format!(
-                    "{{\"const\":{{\"ty\":{},\"int\":{},\"path\":{},\"fn\":{},\"dbg\":{}}}}}",
+                    "{{\"const\":{{\"ty\":{},\"int\":{},\"ref_int\":{},\"path\":{},\"fn\":{},\"dbg\":{}}}}}",
                     esc(&self.ty_str(ty)),
                     int,
+                    ref_int,
                     path,
                     fnp,
                     esc(&format!("{}", c.const_).chars().take(120).collect::<String>())
